@@ -183,3 +183,12 @@ claim(
     "abstract interpretation with exhaustive order-type enumeration; polynomial identities (with sqrt normalisation) for the formulas; decision table over representative grids for uniform detection",
     "DESIGN.md §5 C37",
 )
+
+claim(
+    "C14",
+    "other",
+    "Decides the schedule code by abstract interpretation: is_on_at_time_step over all 128 None-patterns of its optional parameters x period (symbolic values and time) raises exactly on ambiguous / over-specified / period-less windows and otherwise returns the closed-interval predicate start <= t*dt <= end with the documented start and end (a bare duration starts at 0), always-off never on, switch fields forwarded under their own names; calculate_on_list (fixed lists, window, interval) and the chronological index map on representative schedules; is_default_always_on falsified by each declared field; in one forward and one backward solver step a scheduled source's term is multiplied by the indicator of its own switch at the step taken and vanishes when off while an always-on source is ungated; update_detector_states selects update(step) or the previous state on the detector's own on-array and leaves the other time direction untouched; every time-domain detector update writes only row _time_step_to_arr_idx[step] of the state entry of the same name (all layouts), init_state allocates sum(on_list) rows and Detector.place_on_grid builds the chronological index map. Runs of the time loop are not decided.",
+    TB + "; canonical keys of comparison predicates; abstract source model of C02; recording detector state",
+    "abstract interpretation with exhaustive None-pattern enumeration and canonical predicate comparison; indicator-algebra gating check on one solver step; recorded-write typestate for detector rows",
+    "DESIGN.md §5 C14",
+)
